@@ -161,8 +161,10 @@ EFF_LEAK = [
 
 # allowed (callee prefix, caller path suffix) pairs, one line of reason each
 ALLOW = {
-    ('tempfile::tempfile', 'parallel::TmpNodes::<DE>::new'): 'anonymous, already-unlinked temp file owned by TmpNodes',
-    ('tempfile::tempfile_in', 'parallel::TmpNodes::<DE>::new_in'): 'anonymous temp file in the user-chosen directory',
+    # (a caller spec starting with '@' is a role: '@tmpnodes-ctor' = an associated function of TmpNodes that returns a TmpNodes
+    #  or the File it will own -- the constructors, however many there are and whatever they are called)
+    ('tempfile::tempfile', '@tmpnodes-ctor'): 'anonymous, already-unlinked temp file owned by TmpNodes',
+    ('tempfile::tempfile_in', '@tmpnodes-ctor'): 'anonymous temp file in the user-chosen directory',
     ('memmap2::Mmap::map', 'parallel::TmpNodes::<DE>::into_bytes_reader'): 'read-only map of the anonymous temp file',
     ('memmap2::Mmap::advise', 'parallel::TmpNodes::<DE>::into_bytes_reader'): 'madvise on that map',
 }
@@ -181,7 +183,13 @@ def effect_scan(ctx, rule, table, allow=ALLOW, fns=None, what=''):
                     owner = f.path.split('::{closure')[0]
                     okk = None
                     for (ap, caller), why in allow.items():
-                        if (name.startswith(ap) and (name == ap or not name[len(ap)].isalnum() and name[len(ap)] != '_')) and owner.endswith(caller):
+                        if not (name.startswith(ap) and (name == ap or not name[len(ap)].isalnum() and name[len(ap)] != '_')):
+                            continue
+                        if caller == '@tmpnodes-ctor':
+                            of = F.fn(owner)
+                            if owner.startswith('parallel::TmpNodes::') and of is not None and ('TmpNodes<' in of.ret_ty() or 'fs::File' in of.ret_ty()):
+                                okk = why
+                        elif owner.endswith(caller):
                             okk = why
                     key = '%s/%s' % (owner, name.split('::<')[0])
                     if okk:
